@@ -49,7 +49,10 @@ SYN = {"uint8": ["BYTE", "uint8_t", "UCHAR"], "uint16": ["WORD", "unsigned short
        "char": ["CHAR"], "BYTE": ["uint8"], "DWORD": ["uint32"], "WORD": ["uint16"], "unsigned int": ["uint32", "DWORD"],
        "long long": ["int64", "LONGLONG"], "uint24": ["uint24"]}
 LINE_BREAKS = "\n\r\f\v"  # what str.splitlines() (the enum member splitter) treats as a line boundary, of the characters generated
-NOISE = [" ", "  ", "\t", "\n", "\n\n  ", " /* c */ ", "/**/", "/* two\n   lines */", " // eol\n", "/* it's */", "\r\n", " // eol\r\n", "\r", "\f"]
+NOISE = [" ", "  ", "\t", "\n", "\n\n  ", " /* c */ ", "/**/", "/* two\n   lines */", " // eol\n", "/* it's */", "\r\n", " // eol\r\n", "\r", "\f",
+         # comment CONTENTS: runs of stars before the closing slash, comment markers and quotes inside comments
+         "/** doc **/", "/***/", "/* a * b */", "/*/ x */", "/* // */", " // /* x\n", "/* \" */", "/******** banner ********/", "/* x ****/", "/* /* */",
+         "/* don't */"]
 
 
 # conflicting re-declarations of an existing type name NAME in the other syntactic forms that register a name
@@ -177,7 +180,9 @@ def gen_case(rng: random.Random, tier: str):
                 elif r3 < 0.3:
                     body += [*tt, *declarator(rng, fn, [], stars=rng.choice([1, 1, 2])), ";"]
                 elif r3 < 0.4 and not is_enumlike and tn in ("uint8", "uint16", "uint32", "int32", "WORD", "DWORD", "BYTE"):
-                    body += [*tt, fn, ":", str(rng.randint(1, 3)), ";", "uint64", nid("f"), ";"]
+                    if rng.random() < 0.25 and not any(t_ in ("flag", "enum") for t_ in body):
+                        fn = rng.choice(["flag", "enum"])  # a field spelled like a keyword of the definition language
+                    body += [*tt, fn, G(":"), G(str(rng.randint(1, 3))), ";", "uint64", nid("f"), ";"]
                 elif r3 < 0.5 and kind != "union":
                     body += ["struct", "{", "uint8", nid("f"), ";", *tt, nid("f"), ";", "}", fn, ";"]
                 elif r3 < 0.62:
@@ -191,7 +196,7 @@ def gen_case(rng: random.Random, tier: str):
             body.append("}")
             if kind == "tstruct":
                 names = [nm] + ([nid("S")] if rng.random() < 0.6 else []) + ([nid("S")] if rng.random() < 0.2 else [])
-                toks = ["typedef", "struct", *body]
+                toks = [*(["#[", G("nocompile"), G("]")] if rng.random() < 0.12 else []), "typedef", "struct", *body]
                 for k, x in enumerate(names):
                     if k:
                         toks.append(",")
@@ -201,7 +206,8 @@ def gen_case(rng: random.Random, tier: str):
                 for x in names:
                     types.append((x, idx))
             else:
-                frags.append({"kind": kind, "toks": [kind, nm, *body, ";"], "deps": sorted(deps), "names": [nm]})
+                cfgflag = ["#[", G("nocompile"), G("]")] if rng.random() < 0.12 else []
+                frags.append({"kind": kind, "toks": [*cfgflag, kind, nm, *body, ";"], "deps": sorted(deps), "names": [nm]})
                 types.append((nm, idx))
     # perturbed history
     order = _topo(rng, frags)
